@@ -56,7 +56,8 @@ func verifSnapshotFiles(loc *verifLoc) int {
 
 // Harness_C12_StoreFSM: the job-checkpoint store under every sequence of K calls
 // create-checkpoint / create-savepoint / operator ack / source-runner ack (from members,
-// duplicates, wrong ids, foreign senders) / restart, against a reference state machine.
+// duplicates, wrong ids, foreign senders) / restart / new assembly abandoning the checkpoint
+// in progress, against a reference state machine.
 func Harness_C12_StoreFSM() {
 	loc := &verifLoc{}
 	retained := make(chan []uint64, 16)
@@ -77,8 +78,11 @@ func Harness_C12_StoreFSM() {
 
 	k := verif.Param("K", 5)
 	for step := 0; step < k; step++ {
-		op := verif.Choose("op", 5)
+		op := verif.Choose("op", 6)
 		switch op {
+		case 5: // the job starts a new assembly while a checkpoint may be in progress
+			store.AbandonPendingCheckpoint()
+			pending = nil // its id stays handed out: later ids are larger, late acks for it are stale
 		case 0, 1:
 			save := op == 1
 			if !save {
